@@ -56,3 +56,56 @@ UNITS.append(dict(
     desc='[C17] every exported word holds its numb-bit field of |z| with zero nails at the prescribed position, the word count is exact, nothing else is written, and mpz_import gives |z| back - over the whole enumerated space',
     assumptions=['bounded stand-in: 1.1 million cases, operands of at most 3 limbs over a five-letter limb alphabet'],
     selftest=[]))
+
+# ------------------------------------------------------------------ mpz_import, byte-sized words with any nail count: the inverse relation (cf. mpn_set_str)
+# word w (0 = least significant, at data[V_ADDR (w)]) contributes its low k bits as the field [wk, wk+k) of the result; the nail bits of the input are ignored;
+# the result is normalised and has no bit at or above count*k
+IM_CONTRACT = '''#define V_IL(t,zp,size,top) ((t) < (size) ? (zp)[t] : ((t) == (size) ? (top) : (mp_limb_t) 0))
+#define V_IFIELD(o,zp,size,top) (((V_IL ((long) ((o) / 64), zp, size, top) >> ((o) % 64)) | ((((o) % 64) + V_KC > 64) ? V_IL ((long) ((o) / 64) + 1, zp, size, top) << (64 - ((o) % 64)) : 0)) & ((1UL << V_KC) - 1))
+#define V_IADDR(w) (order == -1 ? (w) : (long) count - 1 - (w))
+void __gmpz_import (mpz_ptr z, size_t count, int order, size_t size, int endian, size_t nail, const void *data)
+__CPROVER_requires (V_WF (z) && size == 1 && nail == V_NL && (order == 1 || order == -1) && -1 <= endian && endian <= 1 && count <= (size_t) V_ZMAX)
+__CPROVER_requires (data != (void *) 0 && (count == 0 || __CPROVER_r_ok (data, count)) && __CPROVER_POINTER_OFFSET (data) == 0 && !__CPROVER_same_object (data, V_PTR (z)) && !__CPROVER_same_object (data, z) && V_GHOSTS_OK)
+__CPROVER_assigns (*z, __CPROVER_object_whole (V_PTR (z)))
+__CPROVER_frees (V_PTR (z))
+__CPROVER_ensures (V_WF_AT (z, gk) && V_SIZ (z) >= 0 && (unsigned long) V_SIZ (z) <= (count * V_KC + 63) / 64)
+__CPROVER_ensures ((unsigned long) gj < count ==> V_IFIELD ((unsigned long) gj * V_KC, V_PTR (z), (long) V_SIZ (z), (mp_limb_t) 0) == (((const unsigned char *) data)[V_IADDR (gj)] & ((1UL << V_KC) - 1)))
+/* no bit at or above count*k: a result of full length has a top limb below 2^(count*k mod 64) */
+__CPROVER_ensures (((unsigned long) V_SIZ (z) == (count * V_KC + 63) / 64 && (count * V_KC) % 64 != 0) ==> (V_PTR (z)[V_SIZ (z) - (V_SIZ (z) > 0)] >> ((count * V_KC) % 64)) == 0);
+'''
+def _import(nl):
+    k = 8 - nl
+    W = '(zp - z->_mp_d)'
+    D = '((const unsigned char *) data)'
+    inv = ('(size == 1 && nail == V_NL && (order == 1 || order == -1) && (endian == 1 || endian == -1) && wbytes == V_KC / 8 && wbits == V_KC % 8 && wbitsmask == (1UL << (V_KC % 8)) - 1 '
+           '&& woffset == (endian >= 0 ? 1 : -1) + (order < 0 ? 1 : -1) && count <= (size_t) V_ZMAX && zsize == (mp_size_t) ((count * V_KC + 63) / 64) && V_WFA (z) && V_ALLOC (z) >= zsize && i <= count '
+           '&& __CPROVER_same_object (zp, z->_mp_d) && WW == (long) (i * V_KC / 64) && lbits == (int) (i * V_KC % 64) && (limb >> lbits) == 0 '
+           '&& ((0 <= gj && (unsigned long) gj < i) ==> V_IFIELD ((unsigned long) gj * V_KC, z->_mp_d, WW, limb) == (@D@[V_IADDR (gj)] & ((1UL << V_KC) - 1))) '
+           '&& (i < count ==> (__CPROVER_same_object (dp, data) && dp == (unsigned char *) data + V_IADDR ((long) i))))').replace('WW', W).replace('@D@', D)
+    hv = '{ long V_c = nondet_long (); __CPROVER_assume (0 <= V_c && V_c <= zsize); zp = z->_mp_d + V_c; long V_a = nondet_long (); __CPROVER_assume (i >= count || (0 <= V_a && (unsigned long) V_a < count)); dp = (unsigned char *) data + V_a; }'
+    LO = '((long) ((unsigned long) gj * V_KC / 64))'
+    return dict(
+        name='mpz_import_bytes_n%d' % nl, props=['C17', 'C04', 'C15'], source='mpz/import.c', contracts=['mpn.h', 'mpz.h'],
+        contract_text=('#define V_NL %d\n#define V_KC %d\n' % (nl, k)) + IM_CONTRACT, enforce=['__gmpz_import'], replace=['__gmpz_realloc'], unwind=3,
+        functions={'__gmpz_import': dict(
+            rewrites=[(r'unsigned align = \(\(char \*\) data - \(char \*\)[^;]*% sizeof \(mp_limb_t\);', 'unsigned align = (unsigned) (((unsigned long) data) % sizeof (mp_limb_t));', 'address of data taken by an integer cast instead of subtracting the null pointer')],
+            loops={0: 'unreachable', 1: 'unreachable', 2: 'unreachable',
+                   3: dict(scalars=['i', 'j', 'limb', 'lbits', 'byte'], havoc_targets=['zp', 'dp'], havoc=hv, havoc_inv={'V_c': W, 'V_a': '(dp - (unsigned char *) data)'},
+                           slices=[('z->_mp_d', 'zsize * 8')], inv=inv, dec='(count - i)'),
+                   4: 'unwind',
+                   5: dict(snap='long V_nl0 = zsize;', scalars=['zsize'], dec='zsize',
+                           inv=('(0 <= zsize && zsize <= V_nl0 && ((zsize <= gk && gk < V_nl0) ==> zp[gk] == 0) && ((zsize <= LO && LO < V_nl0) ==> zp[LO] == 0) && ((zsize <= LO + 1 && LO + 1 < V_nl0) ==> zp[LO + 1] == 0))').replace('LO', LO))})},
+        assumptions=['size == 1 (byte-sized words) and nail == %d only; the whole-limb fast paths and words of other sizes have no unit' % nl,
+                     '`align = ((char *) data - (char *) NULL) % sizeof (mp_limb_t)` REWRITTEN in the verified text to an integer cast (ISO C does not define the subtraction)',
+                     'the inner byte loop runs at most once for size == 1 and is unwound completely (unwinding assertions on)'],
+        harness='''void h_mpz_import_bytes_n%d (void) {
+%s  size_t count = nondet_ulong (); __CPROVER_assume (count <= (size_t) V_ZMAX);
+  unsigned char *data = malloc (count ? count : 1); __CPROVER_assume (data != (void *) 0);
+  gj = nondet_long (); gk = nondet_long (); gh = 0;
+  int order = nondet_int (), endian = nondet_int ();
+  __gmpz_import (&Z, count, order, 1, endian, V_NL, data);
+}''' % (nl, mpz_obj('Z')), timeout=2400,
+        selftest=([('__gmpz_import', r'limb = byte >> \(\(wbits\) - lbits\);', 'limb = byte >> ((wbits) - lbits + 1);'), ('__gmpz_import', r'if \(lbits != 0\)', 'if (lbits > 1)')] if nl == 3 else
+                  [('__gmpz_import', r'byte = \*dp;', 'byte = *dp & 0x7f;'), ('__gmpz_import', r'\(order >= 0 \? \(count-1\)\*size : 0\)', '(order >= 0 ? (count)*size : 0)')] if nl == 0 else []))
+for _n in range(8):
+    UNITS.append(_import(_n))
